@@ -654,7 +654,12 @@ func c04Display(c *Ctx) {
 						conv = "conv:int64("
 					}
 					want := "conv:float64(" + conv + num + "))"
-					if (l == num && rr == want) || (rr == num && l == want) {
+					// a number that survives the round trip through int fits in int64 as well (never the other way round)
+					alt := want
+					if conv == "conv:int64(" {
+						alt = "conv:float64(conv:int(" + num + "))"
+					}
+					if (l == num && (rr == want || rr == alt)) || (rr == num && (l == want || l == alt)) {
 						guard = b
 					}
 				}
